@@ -84,3 +84,13 @@ macro "hook_enum" l:term : tactic => `(tactic| (intro v; cases v with
     | _ => rfl
   | list xs => rfl
   | tuple xs => rfl))
+
+namespace Bodies
+
+/-- the hand model's `cls.__build__(text)` for class `K`, over the regenerated class table -/
+def modelBuild (fp : Text → Option Text) (K : String) (t : Text) : Except PyErr Val :=
+  match Model.resolveSpec Generated.classTable K with
+  | some sp => (Model.runBuild { tbl := Generated.classTable, enums := Generated.enums, H := { parse := fp } } sp t).map emb
+  | none => .error .attribute
+
+end Bodies
